@@ -54,7 +54,7 @@ ENGINE = "E2-netsim"
 TECHNIQUE = "runtime monitoring: lenient reference response reader on the delivered prefix vs. request Deferred and body-protocol events"
 RULE = ("responses from a structured generator (GET/HEAD/POST requests, persistent or not; 0-2 interim 1xx, half of them carrying Content-Length / Transfer-Encoding / Connection headers of their own; HTTP/1.0/1.1; "
         "reason present/empty/missing; CRLF or LF-only line ends; folded headers; Content-Length plain/duplicate/list/"
-        "folded/zero-padded, chunked with extensions, padded sizes and trailers, close-delimited, HEAD/204/304 with stray "
+        "folded/zero-padded, chunked with extensions, padded sizes and trailers (half of them also carrying a Content-Length: true/wrong/0/00/0,0/huge — Transfer-Encoding wins), close-delimited, HEAD/204/304 with stray "
         "framing headers; 25% serialised by h11; clear-cut malformed variants; trailing bytes) x connection loss at every "
         "byte position x segmentations (whole, random, byte-wise) x body-delivery policy (immediate, after return, late "
         "despite pause, after loss, never).  Distinct by (response bytes, k, segment lengths, policy, request method); "
@@ -69,7 +69,8 @@ FLOORS = {"runs": 20000, "truncation_points": 5000, "deferred_response": 5000, "
           "h11_crosschecks": 50, "responses_with_framing_headers_on_interim": 20, "malformed_head_runs": 300, "head_or_nobody_runs": 1000,
           "family_two-split": 5000, "family_tx": 1000, "tx_called-waiting": 150, "tx_fired-paused": 150, "tx_unfired": 150,
           "family_reentry": 1000, "reentry_abort": 200, "reentry_pause-resume": 50, "family_raises": 500, "raise_runs": 300,
-          "family_pair": 500, "second_exchanges_checked": 300, "edge_responses": 8}
+          "family_pair": 500, "second_exchanges_checked": 300, "edge_responses": 8,
+          "responses_chunked_plus_content_length": 12}
 READY = True
 
 NOBODY_CODES = (204, 304)
@@ -322,6 +323,7 @@ def gen_response(rng):
         hdrs += [b"X-N%d: %d" % (i, i) for i in range(rng.choice([60, 150]))]
     n = len(body)
     fr = []
+    conflicting_framing = False
     if framing == "cl":
         st = rng.random()
         if edge == "huge-content-length":
@@ -346,8 +348,12 @@ def gen_response(rng):
             fr = [b"Content-Length:%d" % n]
     elif framing == "chunked":
         fr = [rng.choice([b"Transfer-Encoding: chunked", b"Transfer-Encoding: chunked", b"transfer-encoding: Chunked", b"Transfer-Encoding:chunked"])]
-        if rng.random() < 0.1:
-            fr.append(b"Content-Length: %d" % (n + 7))  # Transfer-Encoding wins
+        if rng.random() < 0.5:
+            # conflicting framing: RFC 9112 6.3 — Transfer-Encoding overrides any Content-Length, whatever its value
+            fr.append(b"Content-Length: " + rng.choice([b"%d" % (n + 7), b"%d" % n, b"0", b"0", b"00", b"0, 0", b"0,0", b"1", b"%d" % (10 ** 20)]))
+            if rng.random() < 0.2:
+                fr.append(fr[-1])
+            conflicting_framing = True
     if nobody and rng.random() < 0.6:
         fr = fr if rng.random() < 0.7 else []
     elif nobody:
@@ -382,7 +388,8 @@ def gen_response(rng):
     head_malformed = malformed in ("bad-status-code", "bad-version", "conflicting-cl", "non-numeric-cl", "header-no-colon")
     return {"method": method, "code": code, "framing": "none" if nobody else framing, "malformed": malformed, "raw": bytes(raw), "hdr_end": hdr_end,
             "msg_end": msg_end, "exp_body": exp_body, "complete_state": complete_state, "head_malformed": head_malformed, "interim": n_interim,
-            "framed_interim": n_framed_interim, "edge": edge, "persistent": rng.random() < 0.3, "source": "generator"}
+            "framed_interim": n_framed_interim, "edge": edge, "conflicting_framing": conflicting_framing and not nobody,
+            "persistent": rng.random() < 0.3, "source": "generator"}
 
 
 def gen_h11_response(rng):
@@ -1012,6 +1019,8 @@ def run_response(ctx, h, desc, rng, sample=False):
     ctx.count("responses")
     if desc.get("framed_interim"):
         ctx.count("responses_with_framing_headers_on_interim")
+    if desc.get("conflicting_framing"):
+        ctx.count("responses_chunked_plus_content_length")
     if desc.get("edge"):
         ctx.count("edge_responses")
         ctx.seen("edges", desc["edge"])
